@@ -117,6 +117,16 @@ def check_serde_filter(S, P, r5):
                         lits.append(s)
             if e.get("k") == "mcall" and e["method"] in ("is_ident", "contains") and e["args"] and lit_str(e["args"][0]):
                 lits.append(lit_str(e["args"][0]))
+            # the names kept in a constant table (`SERDE_DERIVES.iter().any(|d| ident == d)` / `.contains(..)`)
+            if e.get("k") == "path":
+                c_ = S.consts.get(e["segs"][-1])
+                ce_ = c_.get("expr") if c_ else None
+                while isinstance(ce_, dict) and ce_.get("k") in ("ref", "paren"):
+                    ce_ = ce_["expr"]
+                if isinstance(ce_, dict) and ce_.get("k") == "array":
+                    lits += [lit_str(x) for x in ce_["elems"] if lit_str(x) is not None]
+            if e.get("k") == "array" and e.get("elems") and all(lit_str(x) is not None for x in e["elems"]):
+                lits += [lit_str(x) for x in e["elems"]]
         if set(lits) >= {"derive", "Serialize", "Deserialize"} and "&&" not in ops and set(lits) <= {"derive", "Serialize", "Deserialize"}:
             r5.ok("should_include: derive ∋ Serialize ∨ Deserialize")
         else:
@@ -126,7 +136,7 @@ def check_serde_filter(S, P, r5):
     for nm in ("index_type_definitions", "extract_type_from_ast"):
         fs = P.find("CommandAnalyzer::" + nm)
         for f in fs:
-            used = {short_path(c.best) for c in f.calls}
+            used = {short_path(c.best) for (_, c) in P.find_call_sites(f.id, lambda c: True)}
             if {"StructParser::should_include_struct", "StructParser::should_include_enum"} <= used:
                 r5.ok("%s consults should_include_struct and should_include_enum" % nm)
             else:
